@@ -187,4 +187,261 @@ theorem at_answered_stays (h0 : Reach c e w0) (nc0 : NC w0.s) (hs : ∀ i, (sche
 
 end
 
+/-! ## without per-lookup fairness an access can starve -/
+
+/-- `AFair` with the per-lookup fairness weakened to per-kind fairness: the translation service makes an
+answering move again and again (everything else as in `AFair`, per-request fairness of the memory included) -/
+structure KFair (c : Cfg) (e : Env) (w0 : CW) (sched : Nat → HOp) : Prop where
+  noctl : ∀ i, (sched i).noCtl = true
+  tick : ∀ n, ∃ m, n ≤ m ∧ sched m = .tick
+  top : ∀ n, ∃ m, n ≤ m ∧ sched m = .drainTop
+  bot : ∀ n, ∃ m, n ≤ m ∧ sched m = .drainBot
+  tr : ∀ n, ∃ m, n ≤ m ∧ sched m = .drainTr
+  svc : ∀ n, ∃ m, n ≤ m ∧ ∃ j, sched m = .ansT j
+  memory : ∀ n b, b ∈ (wrun c e w0 sched n).envM →
+    ∃ m, n ≤ m ∧ ∃ r ∈ (wrun c e w0 sched m).s.botIn, r.rspTo = b.bid
+
+/-- per-access liveness with per-kind fairness of the translation service only -/
+def at_access_eventually_answered_full : Prop :=
+  ∀ (c : Cfg) (e : Env) (w0 : CW) (sched : Nat → HOp), Reach c e w0 → NC w0.s → KFair c e w0 sched →
+    ∀ (a : Acc) (n : Nat), a ∈ (wrun c e w0 sched n).s.topIn → ∃ m, n ≤ m ∧ Ans (wrun c e w0 sched m).s a
+
+def sPl : Payload := ⟨false, 4, [], [], false⟩
+def sA0 : Acc := ⟨0, 0, 0, sPl⟩
+def sQ0 : TReq := ⟨0, 0, 0⟩
+def sT0 : Tx := ⟨[sA0], sQ0, none, false⟩
+/-- width 1, page size 1 -/
+def sCfg : Cfg := ⟨1, 0⟩
+
+/-- one round of the starving schedule: a new access to a fresh page arrives, is accepted, its lookup is
+taken by the service and answered at once — the service always answers the *youngest* lookup it holds —,
+it is forwarded, answered by the memory and returned to the requester; every port is polled -/
+def sCyc (k : Nat) : List HOp :=
+  [.access 0 (k + 1) sPl, .tick, .drainTr, .ansT 1, .tick, .drainBot, .ansM 0, .tick, .drainTop, .drainCtl]
+
+/-- the starving schedule: the victim's lookup is taken by the service, then round after round -/
+def sSched (i : Nat) : HOp :=
+  if i = 0 then .tick else if i = 1 then .drainTr else
+  match (i - 2) % 10 with
+  | 0 => .access 0 ((i - 2) / 10 + 1) sPl
+  | 1 => .tick
+  | 2 => .drainTr
+  | 3 => .ansT 1
+  | 4 => .tick
+  | 5 => .drainBot
+  | 6 => .ansM 0
+  | 7 => .tick
+  | 8 => .drainTop
+  | _ => .drainCtl
+
+/-- the victim `sA0` (pid 0, page 0) is at the top port -/
+def sW0 (e : Env) : CW := hstep sCfg e {} (.access 0 0 sPl)
+
+/-- between two rounds: the victim waits in its transaction, its lookup `sQ0` is the oldest one the
+service holds, everything else is empty, nobody has answered the victim -/
+structure SInv (k : Nat) (w : CW) : Prop where
+  txs : w.s.txs = [sT0]
+  infl : w.s.infl = []
+  fl : w.s.flushing = false
+  topIn : w.s.topIn = []
+  topOut : w.s.topOut = []
+  botIn : w.s.botIn = []
+  botOut : w.s.botOut = []
+  trIn : w.s.trIn = []
+  trOut : w.s.trOut = []
+  ctlIn : w.s.ctlIn = []
+  ctlOut : w.s.ctlOut = 0
+  nextT : w.s.nextT = k + 1
+  nextB : w.s.nextB = k
+  nextA : w.s.nextA = k + 1
+  envT : w.envT = [sQ0]
+  envM : w.envM = []
+  ans : ∀ l ∈ w.s.answered, l.top.id ≠ 0
+
+theorem sInv_cycle (e : Env) (k : Nat) (w : CW) (h : SInv k w) : SInv (k + 1) (hrun sCfg e w (sCyc k)) := by
+  obtain ⟨h1, h2, h3, h4, h5, h6, h7, h8, h9, h10, h11, h12, h13, h14, h15, h16, h17⟩ := h
+  constructor <;>
+  simp [hrun, sCyc, hstep, step, tick, runPipeline, iter, respond, parseTranslation, translate, handleCtrl,
+    coalesce, popFirst, markFirst, isDrainable, hasTid, emit, extract, removeNth, mkBReq, pageId, sCfg, sT0, sQ0, sA0,
+    h1, h2, h3, h4, h5, h6, h7, h8, h9, h10, h11, h12, h13, h14, h15, h16]
+  exact h17
+
+theorem sInv_start (e : Env) : SInv 0 (hrun sCfg e (sW0 e) [.tick, .drainTr]) := by
+  constructor <;>
+  simp [hrun, sW0, hstep, step, tick, runPipeline, iter, respond, parseTranslation, translate, handleCtrl,
+    coalesce, popFirst, markFirst, isDrainable, hasTid, emit, extract, removeNth, mkBReq, pageId, sCfg, sT0, sQ0, sA0, sPl]
+
+theorem sSched_block (k : Nat) :
+    [sSched (2 + 10 * k), sSched (2 + 10 * k + 1), sSched (2 + 10 * k + 2), sSched (2 + 10 * k + 3),
+     sSched (2 + 10 * k + 4), sSched (2 + 10 * k + 5), sSched (2 + 10 * k + 6), sSched (2 + 10 * k + 7),
+     sSched (2 + 10 * k + 8), sSched (2 + 10 * k + 9)] = sCyc k := by
+  have e0 : (2 + 10 * k - 2) % 10 = 0 := by omega
+  have e1 : (2 + 10 * k + 1 - 2) % 10 = 1 := by omega
+  have e2 : (2 + 10 * k + 2 - 2) % 10 = 2 := by omega
+  have e3 : (2 + 10 * k + 3 - 2) % 10 = 3 := by omega
+  have e4 : (2 + 10 * k + 4 - 2) % 10 = 4 := by omega
+  have e5 : (2 + 10 * k + 5 - 2) % 10 = 5 := by omega
+  have e6 : (2 + 10 * k + 6 - 2) % 10 = 6 := by omega
+  have e7 : (2 + 10 * k + 7 - 2) % 10 = 7 := by omega
+  have e8 : (2 + 10 * k + 8 - 2) % 10 = 8 := by omega
+  have e9 : (2 + 10 * k + 9 - 2) % 10 = 9 := by omega
+  have d0 : (2 + 10 * k - 2) / 10 = k := by omega
+  have n0 : ∀ j, ¬ (2 + 10 * k + j = 0) := by intro j; omega
+  have n1 : ∀ j, ¬ (2 + 10 * k + j = 1) := by intro j; omega
+  have n0' : ¬ (2 + 10 * k = 0) := by omega
+  have n1' : ¬ (2 + 10 * k = 1) := by omega
+  simp only [sSched, sCyc, n0, n1, n0', n1', if_false, e0, e1, e2, e3, e4, e5, e6, e7, e8, e9, d0]
+
+theorem wrun_block (e : Env) (k : Nat) :
+    wrun sCfg e (sW0 e) sSched (2 + 10 * (k + 1)) = hrun sCfg e (wrun sCfg e (sW0 e) sSched (2 + 10 * k)) (sCyc k) := by
+  rw [← sSched_block k]
+  rw [show 2 + 10 * (k + 1) = 2 + 10 * k + 9 + 1 by omega]
+  rfl
+
+theorem sInv_all (e : Env) : ∀ k, SInv k (wrun sCfg e (sW0 e) sSched (2 + 10 * k))
+  | 0 => sInv_start e
+  | k + 1 => by rw [wrun_block]; exact sInv_cycle e k _ (sInv_all e k)
+
+theorem sSched_noctl (i : Nat) : (sSched i).noCtl = true := by
+  unfold sSched
+  split
+  · rfl
+  · split
+    · rfl
+    · split <;> rfl
+
+/-- whoever leaves the memory's hands has been answered: the response is at the bottom port -/
+theorem left_envM (c : Cfg) (e : Env) (w : CW) (o : HOp) (b : BReq) (h1 : b ∈ w.envM)
+    (h2 : b ∉ (hstep c e w o).envM) : ∃ r ∈ (hstep c e w o).s.botIn, r.rspTo = b.bid := by
+  cases o with
+  | ansM j =>
+    cases hq : w.envM with
+    | nil => rw [hq] at h1; simp at h1
+    | cons b0 l =>
+      by_cases hlt : w.s.botIn.length < c.width
+      · have hi : j % (b0 :: l).length < (b0 :: l).length := Nat.mod_lt _ (by simp)
+        have hm := mem_removeNth (b0 :: l) _ b0 hi b (hq ▸ h1)
+        simp only [hstep, hq, hlt, if_true] at h2 ⊢
+        rcases hm with h | h
+        · refine ⟨⟨((b0 :: l).getD (j % (b0 :: l).length) b0).bid,
+            e.md ((b0 :: l).getD (j % (b0 :: l).length) b0)⟩, ?_, by rw [h]⟩
+          simp [step, hlt]
+        · exact absurd h h2
+      · simp only [hstep, hq, hlt, if_false] at h2
+        exact absurd (hq ▸ h1) h2
+  | drainBot =>
+    exfalso; apply h2
+    simp only [hstep]
+    split
+    · exact h1
+    · exact List.mem_append_left _ h1
+  | tick => exfalso; apply h2; simp only [hstep]; split <;> exact h1
+  | access pid va pl => exact absurd h1 h2
+  | ansT j =>
+    exfalso; apply h2; simp only [hstep]
+    split
+    · exact h1
+    · split <;> exact h1
+  | drainTop => exfalso; apply h2; simp only [hstep]; split <;> exact h1
+  | drainTr => exfalso; apply h2; simp only [hstep]; split <;> exact h1
+  | drainCtl => exfalso; apply h2; simp only [hstep]; split <;> exact h1
+  | flush => exact absurd h1 h2
+  | restart => exfalso; apply h2; simp only [hstep]; split <;> exact h1
+
+theorem left_envM_run (c : Cfg) (e : Env) (w0 : CW) (sched : Nat → HOp) (b : BReq) :
+    ∀ d n, b ∈ (wrun c e w0 sched n).envM → b ∉ (wrun c e w0 sched (n + d)).envM →
+      ∃ m, n ≤ m ∧ ∃ r ∈ (wrun c e w0 sched m).s.botIn, r.rspTo = b.bid := by
+  intro d
+  induction d with
+  | zero => intro n h1 h2; exact absurd h1 h2
+  | succ d ih =>
+    intro n h1 h2
+    by_cases h : b ∈ (wrun c e w0 sched (n + 1)).envM
+    · obtain ⟨m, g1, g2⟩ := ih (n + 1) h (by rw [show n + 1 + d = n + (d + 1) by omega]; exact h2)
+      exact ⟨m, by omega, g2⟩
+    · exact ⟨n + 1, Nat.le_succ _, left_envM c e _ (sched n) b h1 h⟩
+
+/-- the starving schedule is fair in every respect except per-lookup fairness of the translation service -/
+theorem sSched_kfair (e : Env) : KFair sCfg e (sW0 e) sSched := by
+  have at_ : ∀ (n j : Nat) (o : HOp), sSched (2 + 10 * n + j) = o → ∃ m, n ≤ m ∧ sSched m = o :=
+    fun n j o h => ⟨2 + 10 * n + j, by omega, h⟩
+  have blk := sSched_block
+  refine ⟨sSched_noctl, ?_, ?_, ?_, ?_, ?_, ?_⟩
+  · intro n; have := blk n; simp only [sCyc, List.cons.injEq] at this; exact at_ n 1 _ this.2.1
+  · intro n; have := blk n; simp only [sCyc, List.cons.injEq] at this; exact at_ n 8 _ this.2.2.2.2.2.2.2.2.1
+  · intro n; have := blk n; simp only [sCyc, List.cons.injEq] at this; exact at_ n 5 _ this.2.2.2.2.2.1
+  · intro n; have := blk n; simp only [sCyc, List.cons.injEq] at this; exact at_ n 2 _ this.2.2.1
+  · intro n; have := blk n; simp only [sCyc, List.cons.injEq] at this
+    exact ⟨2 + 10 * n + 3, by omega, 1, this.2.2.2.1⟩
+  · intro n b hb
+    refine left_envM_run sCfg e (sW0 e) sSched b (2 + 10 * n - n) n hb ?_
+    rw [show n + (2 + 10 * n - n) = 2 + 10 * n by omega, (sInv_all e n).envM]
+    simp
+
+/-- **The victim starves.** Along the starving schedule — accesses arrive for ever, every port is polled
+for ever, the engine ticks for ever, the memory answers every request, the translation service answers a
+lookup in every round (the youngest) — the victim's lookup is still with the service after every round
+and the victim has not been answered. -/
+theorem at_access_starves (e : Env) (k : Nat) :
+    sQ0 ∈ (wrun sCfg e (sW0 e) sSched (2 + 10 * k)).envT ∧ ¬ Ans (wrun sCfg e (sW0 e) sSched (2 + 10 * k)).s sA0 := by
+  have h := sInv_all e k
+  refine ⟨by rw [h.envT]; simp, ?_⟩
+  rintro ⟨l, hl, hla⟩
+  exact h.ans l hl (by rw [hla]; rfl)
+
+/-- **Per-lookup fairness cannot be weakened to per-kind fairness.** -/
+theorem at_access_eventually_answered_refuted : ¬ at_access_eventually_answered_full := by
+  intro h
+  have hr : Reach sCfg demoEnv (sW0 demoEnv) := Reach.step _ _ Reach.init
+  have nc : NC (sW0 demoEnv).s := by simp [NC, sW0, hstep, step, sCfg]
+  obtain ⟨m, _, hm⟩ := h sCfg demoEnv (sW0 demoEnv) sSched hr nc (sSched_kfair demoEnv) sA0 0
+    (by simp [wrun, sW0, hstep, step, sCfg, sA0])
+  have := at_answered_stays hr nc sSched_noctl sA0 m hm (2 + 10 * m - m)
+  rw [show m + (2 + 10 * m - m) = 2 + 10 * m by omega] at this
+  exact (at_access_starves demoEnv m).2 this
+
+/-! ## non-vacuity -/
+
+/-- the idle schedule from the initial world satisfies `AFair` … -/
+def idleSched (i : Nat) : HOp :=
+  match i % 4 with
+  | 0 => .tick
+  | 1 => .drainTop
+  | 2 => .drainBot
+  | _ => .drainTr
+
+theorem idle_run (c : Cfg) (e : Env) : ∀ n, wrun c e {} idleSched n = {}
+  | 0 => rfl
+  | n + 1 => by
+    show hstep c e (wrun c e {} idleSched n) (idleSched n) = {}
+    rw [idle_run c e n]
+    unfold idleSched
+    split <;> rfl
+
+example (c : Cfg) (e : Env) : AFair c e {} idleSched := by
+  have hk : ∀ n j, j < 4 → (4 * n + j) % 4 = j := by intro n j h; omega
+  refine ⟨?_, ?_, ?_, ?_, ?_, ?_, ?_⟩
+  · intro i; unfold idleSched; split <;> rfl
+  · intro n; exact ⟨4 * n, by omega, by simp [idleSched, hk n 0]⟩
+  · intro n; exact ⟨4 * n + 1, by omega, by simp [idleSched, hk n 1]⟩
+  · intro n; exact ⟨4 * n + 2, by omega, by simp [idleSched, hk n 2]⟩
+  · intro n; exact ⟨4 * n + 3, by omega, by simp [idleSched, hk n 3]⟩
+  · intro n q h; rw [idle_run] at h; simp at h
+  · intro n b h; rw [idle_run] at h; simp at h
+
+/-- … and the hypotheses of `at_access_eventually_answered` about the access are met by the victim at
+time 0 of the starving run (whose schedule satisfies everything in `AFair` but `lookup`) -/
+example : Reach sCfg demoEnv (sW0 demoEnv) ∧ NC (sW0 demoEnv).s ∧ sA0 ∈ (wrun sCfg demoEnv (sW0 demoEnv) sSched 0).s.topIn ∧
+    KFair sCfg demoEnv (sW0 demoEnv) sSched :=
+  ⟨Reach.step _ _ Reach.init, by simp [NC, sW0, hstep, step, sCfg],
+    by simp [wrun, sW0, hstep, step, sCfg, sA0], sSched_kfair demoEnv⟩
+
+/-- the stages are inhabited: after the first two moves of the starving run the victim waits in its
+transaction (stage 2 of `apos` applies), and the younger accesses do get answered -/
+example : InTx (wrun sCfg demoEnv (sW0 demoEnv) sSched 2).s sA0 :=
+  ⟨sT0, by rw [(sInv_all demoEnv 0).txs]; simp, by simp [sT0]⟩
+
+example : ¬ at_access_eventually_answered_full := at_access_eventually_answered_refuted
+example (k : Nat) : sQ0 ∈ (wrun sCfg demoEnv (sW0 demoEnv) sSched (2 + 10 * k)).envT := (at_access_starves demoEnv k).1
+
 end C16
